@@ -1832,7 +1832,10 @@ func (mvcc *MVCCLevelDB) RawBatchGet(cf string, keys [][]byte) [][]byte {
 	values := make([][]byte, 0, len(keys))
 	for _, key := range keys {
 		value, err := db.Get(key, nil)
-		if err != leveldb.ErrNotFound {
+		if err == leveldb.ErrNotFound {
+			// the value of a deleted key is empty but not nil
+			value = nil
+		} else {
 			tikverr.Log(err)
 		}
 		values = append(values, value)
